@@ -1412,6 +1412,7 @@ struct Unit {
     out: String,
     report: Vec<String>,
     n_extracted: usize,
+    range_shim: bool,
 }
 
 struct Found {
@@ -1697,6 +1698,29 @@ impl Unit {
             _ => false,
         };
         HofPass { log: &mut log, counter: 0, ret_is_option, closure_depth: 0, optmap: spec.optmap }.visit_block_mut(&mut block);
+        if self.range_shim {
+            // R-RANGE: `..=e` IS `core::ops::RangeToInclusive { end: e }` and `..e` IS `core::ops::RangeTo { end: e }` (language
+            // definition of range expressions); spelled out so that the unit's shim structs of the same name are used
+            struct RangePass<'a> { log: &'a mut Vec<String> }
+            impl<'a> VisitMut for RangePass<'a> {
+                fn visit_expr_mut(&mut self, e: &mut Expr) {
+                    visit_mut::visit_expr_mut(self, e);
+                    if let Expr::Range(r) = e {
+                        if r.start.is_none() {
+                            if let Some(end) = &r.end {
+                                let new: Expr = match r.limits {
+                                    syn::RangeLimits::Closed(_) => parse_quote! { RangeToInclusive { end: #end } },
+                                    syn::RangeLimits::HalfOpen(_) => parse_quote! { RangeTo { end: #end } },
+                                };
+                                self.log.push("R-RANGE range-to expression spelled as its struct".into());
+                                *e = new;
+                            }
+                        }
+                    }
+                }
+            }
+            RangePass { log: &mut log }.visit_block_mut(&mut block);
+        }
         // R-FORTMP
         ForTmp { log: &mut log, n: 0 }.visit_block_mut(&mut block);
         // R-SCOPE (after R-TRY so that every exit is an explicit `return`)
@@ -2285,6 +2309,12 @@ impl Unit {
                     log.push(format!("R-VIS {} field(s) made pub (needed so that contracts can name them; no runtime meaning)", n));
                 }
             }
+            // R-VIS: a private type is spelled `pub` (the unit is a single module; contracts must be able to name it)
+            match &mut it {
+                Item::Struct(x) if !matches!(x.vis, syn::Visibility::Public(_)) => { x.vis = parse_quote! { pub }; log.push("R-VIS type made pub".into()); }
+                Item::Enum(x) if !matches!(x.vis, syn::Visibility::Public(_)) => { x.vis = parse_quote! { pub }; log.push("R-VIS type made pub".into()); }
+                _ => {}
+            }
             if let Item::Const(c) = &mut it {
                 if let syn::Type::Reference(r) = &mut *c.ty {
                     if r.lifetime.is_none() {
@@ -2456,6 +2486,9 @@ impl Unit {
                     }
                     "broadcast" => {
                         self.broadcast = rest.to_string();
+                    }
+                    "range-shim" => {
+                        self.range_shim = true;
                     }
                     "canary" => {
                         self.out.push_str("// vacuity guard: this MUST fail (otherwise the prelude is inconsistent)\nproof fn fjx_canary() ensures false {}\n");
@@ -2671,6 +2704,7 @@ fn main() {
         out: String::new(),
         report: vec![],
         n_extracted: 0,
+        range_shim: false,
     };
     u.process(Path::new(&args[3]), 0);
     std::fs::write(&args[4], &u.out).unwrap_or_else(|_| die("cannot write output"));
